@@ -3,21 +3,23 @@ import H4.Lemmas.ElemOpsOpen
 namespace H4.Elem
 open H4.Gen.Hdf
 
-/-- what `Hstartaccess` leaves behind besides what `StepOK` says -/
+/-- what `Hstartaccess` leaves behind besides what `StepOK` says: the record's "new" flag is exact -/
 theorem hstartaccess_shape (w : World) (hw : WFW w) (h fi tag ref : Nat) (wr app : Bool) :
     ((hstartaccess w h fi tag ref wr app).2 = .fail ∨ (hstartaccess w h fi tag ref wr app).2 = .ok) ∧
     ((hstartaccess w h fi tag ref wr app).2 = .ok →
       ∃ a, (hstartaccess w h fi tag ref wr app).1.acc h = some a ∧ a.canWrite = wr ∧
-        (∀ h', h' ≠ h → (hstartaccess w h fi tag ref wr app).1.acc h' = w.acc h') ∧
-        (a.newElem = true →
-          (∀ s, (w.file fi).select tag ref = some s → a.slot = s ∧ ((w.file fi).dd s).ext = none) ∧
-          ((w.file fi).select tag ref = none → ¬ (w.file fi).live a.slot))) := by
-  have hE := hw.files fi
-  have hother : ∀ (f' : File) (a : Acc) (h' : Nat), h' ≠ h → ((w.setFile fi f').setAcc h a).acc h' = w.acc h' := by
-    intro f' a h' hne
-    rw [acc_setAcc, if_neg hne, acc_setFile]
+        (a.newElem = true → (((hstartaccess w h fi tag ref wr app).1.file a.file).dd a.slot).ext = none)) := by
+  by_cases hop' : ¬ (w.file fi).isOpen = true
+  · have hop := hop'
+    have : hstartaccess w h fi tag ref wr app = (w, .fail) := by
+      unfold hstartaccess; simp only []; rw [if_pos (by simpa using hop)]
+    rw [this]; exact ⟨Or.inl rfl, fun c => by cases c⟩
+  have hop : (w.file fi).isOpen = true := Classical.not_not.mp hop'
+  have hfi := file_lt_of_open w fi hop
   have hself : ∀ (f' : File) (a : Acc), ((w.setFile fi f').setAcc h a).acc h = some a := by
     intro f' a; rw [acc_setAcc, if_pos rfl]
+  have hfile : ∀ (f' : File) (a : Acc), ((w.setFile fi f').setAcc h a).file fi = f' := by
+    intro f' a; rw [file_setAcc, file_setFile_same w fi f' hfi]
   unfold hstartaccess
   simp only []
   split
@@ -25,36 +27,33 @@ theorem hstartaccess_shape (w : World) (hw : WFW w) (h fi tag ref : Nat) (wr app
   split
   · exact ⟨Or.inl rfl, fun c => by cases c⟩
   split
-  · rename_i hsel
-    split
+  · split
     · exact ⟨Or.inl rfl, fun c => by cases c⟩
-    · refine ⟨Or.inr rfl, fun _ => ⟨_, hself _ _, rfl, fun h' hne => hother _ _ h' hne, ?_⟩⟩
-      intro _
-      refine ⟨fun s hs => (by rw [hsel] at hs; cases hs), fun _ => ?_⟩
-      have C := ddCreate_spec (w.file fi) tag ref hE.ndds_pos hE.tail0
-      exact fun hl => hl C.was_free
+    · refine ⟨Or.inr rfl, fun _ => ⟨_, hself _ _, rfl, fun _ => ?_⟩⟩
+      rw [hfile]
+      have C := ddCreate_spec (w.file fi) tag ref (hw.files fi).ndds_pos (hw.files fi).tail0
+      show (((w.file fi).ddCreate tag ref).1.dd ((w.file fi).ddCreate tag ref).2).ext = none
+      rw [C.dd_new]
   · rename_i i hsel
     split
     · split
       · exact ⟨Or.inl rfl, fun c => by cases c⟩
-      · refine ⟨Or.inr rfl, fun _ => ⟨_, hself _ _, rfl, fun h' hne => hother _ _ h' hne, ?_⟩⟩
+      · refine ⟨Or.inr rfl, fun _ => ⟨_, hself _ _, rfl, ?_⟩⟩
         intro c; exact absurd (show false = true from c) (by decide)
-    · refine ⟨Or.inr rfl, fun _ => ⟨_, hself _ _, rfl, fun h' hne => hother _ _ h' hne, ?_⟩⟩
+    · refine ⟨Or.inr rfl, fun _ => ⟨_, hself _ _, rfl, ?_⟩⟩
       intro c
-      refine ⟨fun s hs => ?_, fun hn => (by rw [hsel] at hn; cases hn)⟩
-      rw [hsel] at hs
-      cases hs
-      refine ⟨rfl, ?_⟩
+      rw [hfile]
       have c' : ((w.file fi).dd i).ext.isNone = true := c
+      show ((w.file fi).dd i).ext = none
       cases hx : ((w.file fi).dd i).ext with
       | none => rfl
       | some p => rw [hx] at c'; cases c'
 
 theorem stepOK_startwrite (w : World) (hw : WFW w) (h fi tag ref len : Nat)
     (hsafe : OpSafe w (.startwrite h fi tag ref len)) : StepOK w (.startwrite h fi tag ref len) := by
-  obtain ⟨hnone, hu, hnoh⟩ := hsafe
+  obtain ⟨hnone, hu⟩ := hsafe
   have hbase : baseTag tag = tag := userKey_base hu
-  have S := stepOK_startaccess w hw h fi tag ref true false ⟨hnone, hu, hnoh⟩
+  have S := stepOK_startaccess w hw h fi tag ref true false ⟨hnone, hu⟩
   obtain ⟨hres, hshape⟩ := hstartaccess_shape w hw h fi tag ref true false
   unfold StepOK at S
   have hst : step w (.startaccess h fi tag ref true false) = hstartaccess w h fi tag ref true false := rfl
@@ -76,7 +75,7 @@ theorem stepOK_startwrite (w : World) (hw : WFW w) (h fi tag ref len : Nat)
     rw [this] at heq1
     exact ⟨hw1, abs w, rfl, heq1⟩
   subst hres
-  obtain ⟨a, ha, hcw, hoth, hnew⟩ := hshape rfl
+  obtain ⟨a, ha, hcw, hnewx⟩ := hshape rfl
   -- what the byte-array view says after `Hstartaccess`
   have hv1' : v1 = (if (abs w).elem fi (tag, ref) = none then (abs w).setElem fi (tag, ref) (some none) else abs w).setHnd h
       (some { file := fi, key := (tag, ref), pos := 0 }) := by
@@ -100,8 +99,8 @@ theorem stepOK_startwrite (w : World) (hw : WFW w) (h fi tag ref len : Nat)
     split <;> simp [View.setHnd, View.setElem]
   have hwfh0 := hw1.handles h a ha
   have hwfh : (w1.file fi).live a.slot ∧ a.special = isSpecial ((w1.file fi).dd a.slot).tag ∧
-      (a.special = false → (a.newElem = true ↔ ((w1.file fi).dd a.slot).ext = none)) ∧ (a.special = true → a.newElem = false) := by
-    rw [← haf]; exact ⟨hwfh0.live, hwfh0.special_iff, hwfh0.new_iff, hwfh0.special_new⟩
+      (a.special = false → ((w1.file fi).dd a.slot).ext = none → a.newElem = true) ∧ (a.special = true → a.newElem = false) := by
+    rw [← haf]; exact ⟨hwfh0.live, hwfh0.special_iff, hwfh0.new_of_none, hwfh0.special_new⟩
   obtain ⟨h_live, h_special_iff, h_new_iff, h_special_new⟩ := hwfh
   cases hne : a.newElem with
   | false =>
@@ -118,7 +117,7 @@ theorem stepOK_startwrite (w : World) (hw : WFW w) (h fi tag ref len : Nat)
         rw [hlink]; exact ⟨_, rfl⟩
       | false =>
         have hx : ((w1.file fi).dd a.slot).ext ≠ none := by
-          intro c; have := (h_new_iff hsp).mpr c; rw [hne] at this; exact absurd this (by decide)
+          intro c; have := h_new_iff hsp c; rw [hne] at this; exact absurd this (by decide)
         have := h_special_iff; rw [hsp] at this
         rw [slotBytes_plain _ _ this.symm]
         cases hx' : ((w1.file fi).dd a.slot).ext with
@@ -141,7 +140,8 @@ theorem stepOK_startwrite (w : World) (hw : WFW w) (h fi tag ref len : Nat)
       cases hs : a.special with
       | false => rfl
       | true => have := h_special_new hs; rw [hne] at this; exact absurd this (by decide)
-    have hx : ((w1.file fi).dd a.slot).ext = none := (h_new_iff hsp).mp hne
+    have hx0 : ((w1.file a.file).dd a.slot).ext = none := hnewx hne
+    have hx : ((w1.file fi).dd a.slot).ext = none := by rw [← haf]; exact hx0
     have hspt := h_special_iff; rw [hsp] at hspt
     rw [slotBytes_plain _ _ hspt.symm, hx] at hel1
     have hw_el : (abs w).elem fi (tag, ref) = none ∨ (abs w).elem fi (tag, ref) = some none := by
@@ -149,34 +149,24 @@ theorem stepOK_startwrite (w : World) (hw : WFW w) (h fi tag ref len : Nat)
       by_cases c : (abs w).elem fi (tag, ref) = none
       · exact Or.inl c
       · rw [if_neg c] at hel1'; exact Or.inr hel1'.symm
-    -- `h` is the only access record on the new element
-    have halone : Alone w1 h := by
-      intro a0 ha0 h' a' ha' ef es
-      rw [ha] at ha0; cases ha0
-      by_cases e : h' = h
-      · exact e
-      exfalso
-      rw [hoth h' e] at ha'
-      rw [haf] at ef
-      obtain ⟨n1, n2⟩ := hnew hne
-      cases hsel : (w.file fi).select tag ref with
-      | none =>
-        have hl := (hw.handles h' a' ha').live
-        rw [ef, es] at hl
-        exact n2 hsel hl
-      | some s =>
-        obtain ⟨e1, e2⟩ := n1 s hsel
-        exact hnoh s hsel e2 h' a' ha' ⟨ef, by rw [es, e1]⟩
     have key : ∀ W2, W2 = (w1.setFile a.file ((w1.file a.file).setLength a.slot len).1).setAcc h { a with newElem := false } →
         WFW W2 ∧ (((abs w1).setElem a.file ((w1.file a.file).keyOf a.slot) (some (some (zeros len)))).setHnd h
           (some { file := a.file, key := (w1.file a.file).keyOf a.slot, pos := a.posn })).Eqv (abs W2) := by
       intro W2 e; subst e
-      obtain ⟨hww, _, _, _, _, heqv⟩ := setLength_world w1 hw1 h a ha hsp hne halone len a.appendable
+      obtain ⟨hww, _, _, _, _, heqv⟩ := setLength_world w1 hw1 h a ha hsp hx0 len a.appendable
       exact ⟨hww, heqv⟩
     have hstep : step w (.startwrite h fi tag ref len) =
         ((w1.setFile a.file ((w1.file a.file).setLength a.slot len).1).setAcc h { a with newElem := false }, .ok) := by
       rw [hstep0]; unfold hstartwrite; rw [hr]; simp only [ha, hne, if_true]
+      -- `HIrefresh_new` finds nothing to do on the record `Hstartaccess` has just made
+      have hrf : w1.refresh h = w1 := by
+        unfold World.refresh; rw [ha]; simp only
+        have : a.refresh (w1.file a.file) = a := by
+          unfold Acc.refresh; rw [if_neg (fun c => c.2.2 hx0)]
+        rw [if_pos this]
       unfold hsetlength
+      rw [hrf]
+      unfold hsetlengthCore
       simp only [ha, hne, hcw]
       rfl
     generalize hW2 : (w1.setFile a.file ((w1.file a.file).setLength a.slot len).1).setAcc h { a with newElem := false } = W2 at hstep
